@@ -195,12 +195,13 @@ def gen_view_request(rng):
         chunks = [body]
     order = rng.choice([["body", "json", "form", "stream_after"], ["form", "body"], ["json", "form"], ["stream_after", "body", "json"], ["form", "json", "body"]])
     return dict(method=rng.choice(["GET", "POST", "PUT", "HEAD", "DELETE"]), path=rng.choice(PATHS), root=rng.choice(["", "", "/app", "/r/é"]), query=rng.choice(QUERIES),
-                headers=headers, chunks=chunks, scheme=rng.choice(["http", "https"]), server=rng.choice([("srv", 80), ("srv", 8080), ("::1", 443), ("10.0.0.1", 443)])), order
+                headers=headers, chunks=chunks, scheme=rng.choice(["http", "https"]), server=rng.choice([("srv", 80), ("srv", 8080), ("::1", 443), ("10.0.0.1", 443)]),
+                client=rng.choice([("127.0.0.1", 50000), ("127.0.0.1", 50000), None, ("::1", 1), ("10.9.8.7", 65535)])), order
 
 
 def check_view(ctx, rq, order):
     req = drivers.Req(method=rq["method"], path=rq["path"].encode("utf-8"), root=rq["root"].encode("utf-8"), query=rq["query"].encode("latin-1"), headers=rq["headers"],
-                      chunks=rq["chunks"], scheme=rq["scheme"], server=rq["server"])
+                      chunks=rq["chunks"], scheme=rq["scheme"], server=rq["server"], client=rq.get("client", ("127.0.0.1", 50000)))
     w = collect_wsgi(req, order)
     a = collect_asgi(req, order)
     ctx.mon("request-view-pairs")
@@ -458,6 +459,7 @@ def replay(ctx, case):
         rq = {k: case[k] for k in ("method", "path", "root", "query", "headers", "chunks", "scheme", "server")}
         rq["headers"] = [tuple(h) for h in rq["headers"]]
         rq["server"] = tuple(rq["server"])
+        rq["client"] = tuple(case["client"]) if case.get("client") else (None if "client" in case else ("127.0.0.1", 50000))
         check_view(ctx, rq, case["access_order"])
     elif "recipe" in case:
         rec = case["recipe"]
